@@ -638,8 +638,15 @@ func (w *WAL) maybeSync() error {
 	}
 
 	if needSync {
-		// Use syncLocked since we're already holding the mutex
-		if err := w.syncLocked(); err != nil {
+		// The record of the append in progress is already in the buffer: it
+		// must reach the disk even if the WAL was marked as rotating in the
+		// meantime. Failing here with ErrWALRotating would report an error for
+		// a write that is in the log (and make the caller log it a second time
+		// in the next file).
+		if atomic.LoadInt32(&w.status) == WALStatusClosed {
+			return ErrWALClosed
+		}
+		if err := w.flushAndSyncLocked(); err != nil {
 			return err
 		}
 	}
@@ -656,6 +663,12 @@ func (w *WAL) syncLocked() error {
 		return ErrWALRotating
 	}
 
+	return w.flushAndSyncLocked()
+}
+
+// flushAndSyncLocked writes the buffer to the file and syncs it, assuming the
+// mutex is already held
+func (w *WAL) flushAndSyncLocked() error {
 	if err := w.writer.Flush(); err != nil {
 		return fmt.Errorf("failed to flush WAL buffer: %w", err)
 	}
